@@ -186,6 +186,23 @@ pub struct F29 {
     pub d: Vec<u32>,
 }
 
+/// two overlapped lists next to an optional element (which a document may also present as xsi:nil="true")
+#[derive(Debug, Clone, PartialEq, Serialize, Deserialize)]
+pub struct F32 {
+    #[serde(default)]
+    pub a: Vec<String>,
+    #[serde(default)]
+    pub b: Vec<String>,
+    #[serde(default, skip_serializing_if = "Option::is_none")]
+    pub o: Option<Item>,
+}
+
+/// the same one level down (so that an ancestor of the struct element can carry namespace declarations)
+#[derive(Debug, Clone, PartialEq, Serialize, Deserialize)]
+pub struct F33 {
+    pub w: F32,
+}
+
 /// a string that serializes itself through `Serializer::collect_str` (the way chrono / url / uuid style types and
 /// `serialize_with` helpers do); deserialized as a plain string
 #[derive(Debug, Clone, PartialEq, Default, Deserialize)]
@@ -322,7 +339,7 @@ pub struct H07 {
     pub v: Vec<Option<Choice>>,
 }
 
-pub const TYPES: &[&str] = &["F01", "F02", "F03", "F04", "F05", "F07", "F08", "F11", "F15", "F16", "F17", "F18", "F19", "F20", "F22", "F23", "F24", "F25", "F26", "F27", "F28", "F29", "F30", "F31", "H01", "H02", "H05", "H06", "H07"];
+pub const TYPES: &[&str] = &["F01", "F02", "F03", "F04", "F05", "F07", "F08", "F11", "F15", "F16", "F17", "F18", "F19", "F20", "F22", "F23", "F24", "F25", "F26", "F27", "F28", "F29", "F30", "F31", "F32", "F33", "H01", "H02", "H05", "H06", "H07"];
 
 /// Apply `$body` with `T` bound to the family type named `$name`.
 #[macro_export]
@@ -351,6 +368,8 @@ macro_rules! with_type {
             "F29" => { type $T = $crate::family::F29; $body }
             "F30" => { type $T = $crate::family::F30; $body }
             "F31" => { type $T = $crate::family::F31; $body }
+            "F32" => { type $T = $crate::family::F32; $body }
+            "F33" => { type $T = $crate::family::F33; $body }
             "F27" => { type $T = $crate::family::F27; $body }
             "F28" => { type $T = $crate::family::F28; $body }
             "H01" => { type $T = $crate::family::H01; $body }
